@@ -950,7 +950,9 @@ class Module(ABC):
             if ~np.all(compartment_properties == compartment_properties[0]):
                 raise ValueError(error_msg(property_name))
 
-        if not (self.nodes[channel_names].var() == 0.0).all():
+        # `nunique` (unlike the variance) also works for branches with a single
+        # compartment and for channels which do not exist in this branch (NaN).
+        if not (self.nodes[channel_names].nunique(dropna=False) <= 1).all():
             raise ValueError(
                 "Some channel exists only in some compartments of the branch which you"
                 "are trying to modify. This is not allowed. First specify the number"
@@ -959,7 +961,8 @@ class Module(ABC):
             )
 
         if not (
-            self.nodes[channel_param_names + channel_state_names].var() == 0.0
+            self.nodes[channel_param_names + channel_state_names].nunique(dropna=False)
+            <= 1
         ).all():
             raise ValueError(
                 "Some channel has different parameters or states between the "
